@@ -215,7 +215,7 @@ def run(res, tier, seed, broken_model):
     reps = repeated_templates()
     rrecs = P.run_programs(reps, broken_model=broken_model)
     res.streams["repeated-evaluation"] = dict(programs=len(reps))
-    progprop.judge(res, rrecs, broken_model, label="repeated")
+    progprop.judge(res, rrecs, broken_model, label="repeated", ntemplates=len(rrecs))
     n = 500 if tier == "quick" else 15000
     pipes, progs = [], []
     for _ in range(n):
